@@ -1461,7 +1461,8 @@ class RlWriter:
         if not href:
             log.warning("no link target specified")
             if not obj.children:
-                return []
+                # nothing to link to, but the target is still the visible text
+                return [self.formatter.style_text(obj.target)] if obj.target else []
         else:
             quote_idx = href.find('"')
             if quote_idx > -1:
